@@ -241,6 +241,27 @@ class PosInterp:
             return self.expr(f.node.body, en)
         if isinstance(f, Builtin):
             n = f.name
+            if n in ('operator.iadd', 'operator.add', 'operator.isub', 'operator.sub'):
+                a_, b_ = args
+                if isinstance(a_, Obj):
+                    dunder = {'operator.iadd': '__iadd__', 'operator.add': '__add__', 'operator.isub': '__isub__', 'operator.sub': '__sub__'}[n]
+                    m_ = self.method(a_.cls, dunder) or (self.method(a_.cls, '__add__') if dunder == '__iadd__' else None)
+                    if m_ is None:
+                        raise self.err(node, f'{n} on an object without {dunder}')
+                    return self.call_function(m_, [a_, b_], {})
+                return self.binop(ast.Add() if 'add' in n else ast.Sub(), a_, b_, node)
+            if n == 'functools.reduce':
+                fn_ = args[0]
+                items_ = self.iter_of(args[1], node)
+                if len(args) > 2:
+                    acc_ = args[2]
+                else:
+                    if not items_:
+                        raise Raised('TypeError: reduce() of empty iterable with no initial value')
+                    acc_, items_ = items_[0], items_[1:]
+                for x_ in items_:
+                    acc_ = self.call_value(fn_, [acc_, x_], {}, node)
+                return acc_
             if n == 'itertools.count':
                 return _Counter(args[0] if args else 0)
             if n == 'next' and args and isinstance(args[0], _Counter):
@@ -257,7 +278,7 @@ class PosInterp:
                         groups.append((k, [x]))
                 return groups
             if n == 'len':
-                if isinstance(args[0], (list, tuple)):
+                if isinstance(args[0], (list, tuple, range, dict)):
                     return len(args[0])
                 if isinstance(args[0], StrSym):
                     return args[0].length()
@@ -265,7 +286,11 @@ class PosInterp:
             if n == 'range':
                 if not all(isinstance(x, int) for x in args):
                     raise self.err(node, 'range over symbolic bounds')
-                return list(range(*args))
+                return range(*args)
+            if n == 'slice':
+                if not all(x is None or isinstance(x, int) for x in args):
+                    raise self.err(node, 'slice with symbolic bounds')
+                return slice(*args)
             if n == 'enumerate':
                 return [(i, x) for i, x in enumerate(self.iter_of(args[0], node), *args[1:])]
             if n in ('list', 'tuple', 'iter'):
@@ -361,6 +386,17 @@ class PosInterp:
         if isinstance(st, ast.Expr):
             if not isinstance(st.value, ast.Constant):
                 self.expr(st.value, env)
+        elif isinstance(st, ast.Match):
+            subject = self.expr(st.subject, env)
+            for case in st.cases:
+                binds: dict = {}
+                if self.match_pattern(case.pattern, subject, binds, env):
+                    en = env
+                    en.update(binds)
+                    if case.guard is not None and not self.truth(self.expr(case.guard, en), case.guard):
+                        continue
+                    self.block(case.body, en)
+                    break
         elif isinstance(st, ast.Assign):
             v = self.expr(st.value, env)
             for t in st.targets:
@@ -384,6 +420,30 @@ class PosInterp:
                 self.assign(st.target, self.binop(st.op, cur, rhs, st), env)
         elif isinstance(st, ast.If):
             self.block(st.body if self.truth(self.expr(st.test, env), st.test) else st.orelse, env)
+        elif isinstance(st, ast.Try):
+            try:
+                try:
+                    self.block(st.body, env)
+                except Raised as ex:
+                    name = str(ex).split(':', 1)[0].split('(', 1)[0].strip()
+                    for h in st.handlers:
+                        names = [] if h.type is None else [norm(x).rsplit('.', 1)[-1] for x in (h.type.elts if isinstance(h.type, ast.Tuple) else [h.type])]
+                        if h.type is None or name in names or 'Exception' in names or 'BaseException' in names \
+                                or (name in ('IndexError', 'KeyError') and 'LookupError' in names):
+                            if h.name:
+                                env[h.name] = ex
+                            self.block(h.body, env)
+                            break
+                    else:
+                        raise
+                else:
+                    self.block(st.orelse, env)
+            finally:
+                self.block(st.finalbody, env)
+        elif isinstance(st, ast.Raise):
+            if st.exc is None:
+                raise Raised('re-raised')
+            raise Raised(norm(st.exc.func) + ': ' + norm(st.exc)[:60] if isinstance(st.exc, ast.Call) else norm(st.exc))
         elif isinstance(st, ast.While):
             n = 0
             while self.truth(self.expr(st.test, env), st.test):
@@ -436,7 +496,7 @@ class PosInterp:
             raise self.err(st, 'statement')
 
     def iter_of(self, v: Any, node: ast.AST) -> list:
-        if isinstance(v, (list, tuple)):
+        if isinstance(v, (list, tuple, range)):
             return list(v)
         if isinstance(v, dict):
             return list(v)
@@ -456,6 +516,40 @@ class PosInterp:
             envs = nxt
         return envs
 
+    # -- structural pattern matching ---------------------------------------------------------
+    def instance_of(self, v: Any, cls_expr: ast.AST, env: dict) -> bool:
+        """isinstance(v, <class named by cls_expr>) for abstract objects and plain Python values; clients with richer class models override"""
+        name = norm(cls_expr)
+        plain = {'str': str, 'int': int, 'bool': bool, 'float': float, 'list': list, 'tuple': tuple, 'dict': dict}
+        if name in plain:
+            return isinstance(v, plain[name]) and not (name == 'int' and isinstance(v, bool))
+        if isinstance(v, Obj):
+            return v.cls == name.rsplit('.', 1)[-1]
+        return type(v).__name__ == name.rsplit('.', 1)[-1]
+
+    def match_pattern(self, pat: ast.AST, v: Any, binds: dict, env: dict) -> bool:
+        if isinstance(pat, ast.MatchAs):
+            if pat.pattern is not None and not self.match_pattern(pat.pattern, v, binds, env):
+                return False
+            if pat.name is not None:
+                binds[pat.name] = v
+            return True
+        if isinstance(pat, ast.MatchOr):
+            return any(self.match_pattern(q, v, binds, env) for q in pat.patterns)
+        if isinstance(pat, ast.MatchSingleton):
+            return v is pat.value
+        if isinstance(pat, ast.MatchValue):
+            return self.compare(ast.Eq(), v, self.expr(pat.value, env), pat)
+        if isinstance(pat, ast.MatchClass):
+            if pat.patterns or pat.kwd_patterns:
+                raise self.err(pat, 'class pattern with sub-patterns')
+            return self.instance_of(v, pat.cls, env)
+        if isinstance(pat, ast.MatchSequence):
+            if not isinstance(v, (tuple, list)) or len(v) != len(pat.patterns) or any(isinstance(q, ast.MatchStar) for q in pat.patterns):
+                return False
+            return all(self.match_pattern(q, x, binds, env) for q, x in zip(pat.patterns, v))
+        raise self.err(pat, 'match pattern')
+
     def assign(self, t: ast.AST, v: Any, env: dict) -> None:
         if isinstance(t, ast.Name):
             env[t.id] = v
@@ -473,8 +567,16 @@ class PosInterp:
             base = self.expr(t.value, env)
             if isinstance(base, list) and not isinstance(t.slice, ast.Slice):
                 i = self.expr(t.slice, env)
+                if isinstance(i, slice):
+                    try:
+                        base[i] = list(v)
+                    except ValueError as ex:
+                        raise Raised(f'ValueError: {ex}')
+                    return
                 if not isinstance(i, int):
                     raise self.err(t, 'symbolic list index')
+                if not -len(base) <= i < len(base):
+                    raise Raised('IndexError: list assignment index out of range')
                 base[i] = v
                 return
             if isinstance(base, list) and isinstance(t.slice, ast.Slice) and t.slice.step is None:
@@ -557,7 +659,7 @@ class PosInterp:
                 return env[e.id]
             if e.id in ('Position', '_StoreHandle', '_StoreBlock', 'TokenStore'):
                 return ClassRef(e.id)
-            if e.id in ('len', 'range', 'enumerate', 'list', 'isinstance', 'max', 'min', 'bool', 'abs', 'next', 'reversed', 'tuple', 'str', 'int', 'dict', 'iter', 'any', 'all', 'sorted', 'zip', 'sum', 'set', 'frozenset', 'id', 'repr'):
+            if e.id in ('len', 'range', 'slice', 'enumerate', 'list', 'isinstance', 'max', 'min', 'bool', 'abs', 'next', 'reversed', 'tuple', 'str', 'int', 'dict', 'iter', 'any', 'all', 'sorted', 'zip', 'sum', 'set', 'frozenset', 'id', 'repr'):
                 return Builtin(e.id)
             if e.id == 'NotImplemented':
                 return 'NotImplemented'
@@ -569,7 +671,8 @@ class PosInterp:
                     return self.expr(st.value, {})          # module constant (_LOAD_FACTOR and friends)
             raise self.err(e, 'name')
         if isinstance(e, ast.Attribute):
-            if norm(e) in ('copy.copy', 'itertools.accumulate', 'itertools.chain', 'itertools.count', 'itertools.groupby'):
+            if norm(e) in ('copy.copy', 'itertools.accumulate', 'itertools.chain', 'itertools.count', 'itertools.groupby', 'functools.reduce',
+                           'operator.iadd', 'operator.add', 'operator.isub', 'operator.sub'):
                 return Builtin(norm(e))
             base = self.expr(e.value, env)
             if isinstance(base, Obj):
@@ -583,6 +686,8 @@ class PosInterp:
                 m = self.method(base.name, e.attr)
                 if m is not None:
                     return Bound(base, m) if m.kind == 'classmethod' else m
+            if isinstance(base, (range, slice)) and e.attr in ('start', 'stop', 'step'):
+                return getattr(base, e.attr)
             if isinstance(base, list) and e.attr in ('append', 'extend', 'pop', 'reverse', 'insert', 'clear', 'copy', 'index', 'remove'):
                 return _ListAppend(base, e.attr)
             if isinstance(base, dict) and e.attr in ('get', 'items', 'keys', 'values', 'pop', 'setdefault'):
@@ -598,9 +703,11 @@ class PosInterp:
                     raise self.err(e, 'slice')
                 return base[slice(lo, hi, st)]
             i = self.expr(e.slice, env)
-            if isinstance(base, (list, tuple)) and isinstance(i, int):
+            if isinstance(base, (list, tuple, range)) and isinstance(i, int) and not isinstance(i, bool):
                 if not -len(base) <= i < len(base):
                     raise Raised(f'IndexError: {norm(e)} with index {i} on a sequence of {len(base)}')
+                return base[i]
+            if isinstance(base, (list, tuple, range)) and isinstance(i, slice):
                 return base[i]
             if isinstance(base, dict):
                 try:
